@@ -5,16 +5,20 @@ undo the change, and summarise which checks raised an alarm.
 import json, os, re, subprocess, sys, time
 
 ROOT = os.path.dirname(os.path.dirname(os.path.abspath(__file__)))
+REPO = "/repo"
+if os.environ.get("VERIF_LANE"):   # triage in a scratch lane (tools/lane.sh): private worktree + private copy of /verif
+    REPO = os.path.join(os.environ["VERIF_LANE"], "repo")
+    ROOT = os.path.join(os.environ["VERIF_LANE"], "verif")
 patch = os.path.abspath(sys.argv[1])
 props = sys.argv[2:]
 m = json.load(open(os.path.join(ROOT, "MANIFEST.json")))
 if not props:
     props = [c["property_id"] for c in m["checks"]]
-st = subprocess.run(["git", "-C", "/repo", "status", "--porcelain", "--untracked-files=no"], capture_output=True, text=True).stdout.strip()
+st = subprocess.run(["git", "-C", REPO, "status", "--porcelain", "--untracked-files=no"], capture_output=True, text=True).stdout.strip()
 if st:
-    print("refusing: /repo has local modifications:\n" + st)
+    print("refusing: " + REPO + " has local modifications:\n" + st)
     sys.exit(2)
-r = subprocess.run(["git", "-C", "/repo", "apply", patch], capture_output=True, text=True)
+r = subprocess.run(["git", "-C", REPO, "apply", patch], capture_output=True, text=True)
 if r.returncode != 0:
     print("patch does not apply:", r.stderr)
     sys.exit(2)
@@ -32,5 +36,5 @@ try:
                 rec = json.load(open(mm.group(1)))
                 print("     ", json.dumps({k: rec.get(k) for k in ("profile", "op_line", "impl_actual", "model_actual", "witness", "program_case")})[:600])
 finally:
-    subprocess.run(["git", "-C", "/repo", "checkout", "--", "."], check=True)
+    subprocess.run(["git", "-C", REPO, "checkout", "--", "."], check=True)
 print(json.dumps({"patch": patch, "detected_by": [p for p in res if res[p]["rc"] != 0]}))
